@@ -17,6 +17,7 @@ INVARIANT SplitUnsigned
 INVARIANT SplitFeedsParser
 INVARIANT ArmorLaw
 INVARIANT ResultsUnique
+INVARIANT DefaultsLaw
 INVARIANT EmitCase
 INVARIANT EmitArmor
 CHECK_DEADLOCK FALSE
